@@ -196,10 +196,47 @@ pub fn run(a: &Args) {
         let (h, class) = gen_hist(&mut rng, grid, max_ev, max_keys);
         let o = run_real(&h);
         let j = judge(&h, &o, grid);
+        // the model's binary32 arithmetic (the real limiter's, operation by operation) must give the very same decisions on
+        // every history, rounding ties included; it also reports whether its own decisions met laws L1/L2 on every call
+        {
+            let mut c = to_case(&h, &o, Judged { oracle: None, rounding_tie: false }, &format!("f32:{class}{}", if j.rounding_tie { ":tie" } else { "" }));
+            c.request = c.request.replacen("c13.run", "c13.f32", 1);
+            c.observed.push_str(" laws=ok");
+            cases.push(c);
+        }
         if j.rounding_tie { ties += 1; n += 1; continue; }
         cases.push(to_case(&h, &o, j, &class));
         n += 1;
     }
+    // rounding ties on purpose: a full previous window, then attempts placed so that last*(1 - age/d) + current meets the
+    // limit exactly or misses it by a nanosecond, in windows whose length is no power of two — only the binary32 model can be
+    // held to these decisions (the exact reference is asked too, and how often it differs is printed)
+    let mut probe_diff = 0;
+    if a.cases > 0 {
+        let reps = if a.thorough { 40 } else { 4 };
+        for _ in 0..reps {
+            for &d in &[3 * S, 7 * S, 1_000_000_007, 60 * S + 1, 10 * S, S / 3, 86_400 * S] {
+                let limit = rng.range(2, 9);
+                let k = rng.range(1, limit);
+                let mut evs: Vec<(u32, u64)> = (0..limit).map(|i| (1, i)).collect();
+                let base = d + rng.below(d / 2);          // the roll happens here: last = limit (or fewer when base is late), current = 0
+                evs.push((1, base));
+                for j in 0..k { evs.push((1, base + (2 * j + 1) * d / (2 * limit))); }
+                let at = base + k * d / limit;
+                for off in [-1i64, 0, 1] { evs.push((1, at.wrapping_add_signed(off))); }
+                evs.sort_by_key(|e| e.1);
+                let h = Hist { limit, d, evs };
+                let o = run_real(&h);
+                let j = judge(&h, &o, false);
+                if j.rounding_tie || j.oracle.as_ref().is_some_and(|w| w.starts_with("(E)")) { probe_diff += 1; }
+                let mut c = to_case(&h, &o, Judged { oracle: None, rounding_tie: false }, "f32:tie-probe");
+                c.request = c.request.replacen("c13.run", "c13.f32", 1);
+                c.observed.push_str(" laws=ok");
+                cases.push(c);
+            }
+        }
+    }
+    println!("c13: tie probes on which the exact reference decides differently from the binary32 limiter: {probe_diff}");
     write_cases(&a.out, &cases).expect("write cases");
     println!("c13: {} histories, {} attempts, rounding_ties dropped (off-grid, |margin| <= 2^-20*limit*d): {}",
         cases.len(), cases.iter().filter(|c| c.request.starts_with("c13.run")).map(|c| c.request.split(' ').count() - 3).sum::<usize>(), ties);
